@@ -102,3 +102,50 @@ Print Assumptions C04_header_value_normalised.
 Theorem C04_header_name_canonical_idem : forall k, canonical_name (canonical_name k) = canonical_name k.
 Proof. exact canonical_name_idem. Qed.
 Print Assumptions C04_header_name_canonical_idem.
+
+(* MULTIPART DOCUMENTS (form fields and file uploads). Model/MultipartWire.v: the document mime/multipart.Writer emits
+   and the parts mime/multipart.Reader finds in it (standard-library code: modelled, tied by the run's CMultipart and
+   CMpRead cases). For every boundary the Writer accepts and every list of parts -- any number, header blocks made of
+   complete lines the reader accepts, contents of ANY bytes and ANY length -- provided no content, seen after the line
+   end of the blank line before it, contains line end + two dashes + the boundary: reading the rendered document gives
+   back exactly those parts. The fuel is the length of the document, so out-of-fuel is excluded by the statement. *)
+From V Require Import MultipartWire MultipartWireProofs.
+Theorem C04_multipart_roundtrip : forall b parts,
+  boundary_ok b = true -> Forall (part_ok b) parts ->
+  mp_parse (length (mp_render b parts)) b (mp_render b parts) = Some parts.
+Proof. exact multipart_roundtrip. Qed.
+Print Assumptions C04_multipart_roundtrip.
+
+(* the sharp form: only a LIVE delimiter in a content matters -- one followed by a blank, tab, CR, LF or two dashes, or
+   standing at the very end of the content; a delimiter followed by any other byte is content for the reader too *)
+Theorem C04_multipart_roundtrip_sharp : forall b parts,
+  boundary_ok b = true -> Forall (part_ok_sharp b) parts ->
+  mp_parse (length (mp_render b parts)) b (mp_render b parts) = Some parts.
+Proof. exact multipart_roundtrip_sharp. Qed.
+Print Assumptions C04_multipart_roundtrip_sharp.
+
+(* the hypotheses are met by the header blocks client/request.go writes and by contents with CR, LF, dashes and the
+   delimiter cut short by one byte *)
+Theorem C04_multipart_hypotheses_met :
+  boundary_ok ex_boundary = true /\ forallb (part_okb ex_boundary) ex_parts = true.
+Proof. exact ex_hypotheses_hold. Qed.
+Print Assumptions C04_multipart_hypotheses_met.
+
+(* the proviso is necessary, first half: a content holding the delimiter followed by a line end is cut there and what
+   follows it is read as a further part (one part written, two read) *)
+Theorem C04_multipart_roundtrip_without_proviso_refuted :
+  exists b h c, boundary_ok b = true /\ hdr_ok h = true /\ hdr_valid h = true /\
+    mp_parse (length (mp_render b [(h, c)])) b (mp_render b [(h, c)]) =
+    Some [(h, ex_kept); (h, ex_injected)].
+Proof. exact multipart_roundtrip_without_proviso_refuted. Qed.
+Print Assumptions C04_multipart_roundtrip_without_proviso_refuted.
+
+(* second half: a content that does not contain the delimiter but STARTS with two dashes + the boundary is read as
+   empty (the line end of the blank line before it completes the delimiter) *)
+Theorem C04_multipart_roundtrip_delimiter_at_start_refuted :
+  exists b h c, boundary_ok b = true /\ hdr_ok h = true /\ hdr_valid h = true /\
+    contains (crlf ++ dash_boundary b) c = false /\
+    mp_parse (length (mp_render b [(h, c)])) b (mp_render b [(h, c)]) =
+    Some [(h, []); (ex_injected_hdr, ex_tail)].
+Proof. exact multipart_roundtrip_delimiter_at_start_refuted. Qed.
+Print Assumptions C04_multipart_roundtrip_delimiter_at_start_refuted.
